@@ -123,6 +123,19 @@ def binop_model(M, interp, op, a, b, node):
         return a.shifted(b if op == 'Add' else -b)
     if op in ('BitAnd', 'BitOr', 'BitXor'):
         return logic_model(M, interp, op, a, b, node)
+    if op in ('FloorDiv', 'Mod') and (isinstance(a, Vec) or isinstance(b, Vec)):
+        pairs, tmpl = broadcast(interp, a, b, node)
+        out = []
+        for ea, eb in pairs:
+            x, y = num_of_el(ea.d), num_of_el(eb.d)
+            if X.is_num(x) and X.is_num(y) and y[1] != 0:
+                q = Fr(math.floor(x[1] / y[1]))
+                out.append(El(X.num(q if op == 'FloorDiv' else x[1] - y[1] * q), m_or(ea.m, eb.m)))
+            elif x in (X.NAN, X.ANY) or y in (X.NAN, X.ANY):
+                out.append(El(X.ANY if X.ANY in (x, y) else X.NAN, m_or(ea.m, eb.m)))
+            else:
+                out.append(El(X.fn('floordiv' if op == 'FloorDiv' else 'mod', x, y), m_or(ea.m, eb.m)))
+        return Vec.fresh(out, kind=('nd' if tmpl.kind in ('dtindex',) else tmpl.kind), dtype=tmpl.dtype, index=tmpl.index if tmpl.kind == 'series' else None)
     if op in ('FloorDiv', 'Mod', 'Pow'):
         if all(isinstance(x, (int, Fr, Sc)) for x in (a, b)):
             x, y = M.conc_num(a, node), M.conc_num(b, node)
